@@ -772,6 +772,62 @@ def run(ctx):
     with_extra_entries(ctx)
     if ctx.shard < 4 or not ctx.quick:
         ncep_entries_stay(ctx)
+    definitions_in_force_when_delivered(ctx)
+
+
+def definitions_in_force_when_delivered(ctx):
+    """Entries carried by an in-stream definition message are part of the tables from the moment that message has been delivered:
+    a template built from the loop body of the scan, while the scan is suspended at the definition message, already uses them (a
+    new sequence expands to its defined members, a re-defined one to its new members) - as does one built after the scan was left
+    at that point.  (Last step of a shard: registered entries are never removed.)"""
+    from pybufrkit.tables import TableGroupCacheManager
+    from pybufrkit.descriptors import flat_member_ids
+    from pybufrkit.decoder import Decoder, generate_bufr_message
+    from mon.checks.c20 import build_definition
+    rng = ctx.rng
+    B, D = R.load_tables(0, 0, 0, 33, 0)
+    B, D = dict(B), dict(D)
+    e1, e2 = 52000 + 10 * ctx.shard + 1, 52000 + 10 * ctx.shard + 2
+    sq = 352000 + 10 * ctx.shard + 1
+    rounds = [([(e1, ('VERIF E1', 'K', 1, -100, 12)), (e2, ('VERIF E2', 'CODE TABLE', 0, 0, 5))], [(sq, ('VERIF SEQUENCE', [1001, e1, e2]))], [1001, e1, e2], (1, -100, 12)),
+              ([(e1, ('VERIF E1 AGAIN', 'K', 2, 0, 16))], [(sq, ('VERIF SEQUENCE', [e2, 12001, e1, e1]))], [e2, 12001, e1, e1], (2, 0, 16))]
+    for rno, (b_entries, d_entries, members, attrs) in enumerate(rounds):
+        try:
+            dm = build_definition(rng, B, D, 33, b_entries, d_entries, 4, 7 + rno)
+        except Exception as e:
+            ctx.notes.append('definitions_in_force: definition message not built: %r' % (e,))
+            return
+        for eid, ent in b_entries:
+            B[eid] = ent
+        for sid, (nm, mem) in d_entries:
+            D[sid] = list(mem)
+        how = ['suspended', 'left'][rno % 2]
+        spec = dict(part='definitions-in-force', round=rno, how=how, stream_hex=dm.bytes.hex())
+        try:
+            gen = generate_bufr_message(Decoder(), dm.bytes + b'\r\r\n')
+            m = next(gen)
+            if how == 'left':
+                gen.close()
+            tg = TableGroupCacheManager.get_table_group(master_table_version=33)
+            got = list(flat_member_ids(tg.template_from_ids(sq)))
+            el = tg.lookup(e1)
+            got_attrs = (el.scale, el.refval, el.nbits)
+        except Exception as e:
+            ctx.violate('definitions-in-force/raises:%s/%s' % (type(e).__name__, how), 'building a template from the entries of a definition message '
+                        'that has been delivered (scan %s at it) raised %s: %s' % (how, type(e).__name__, str(e)[:120]), spec, exc=e)
+            return
+        ctx.count('definition_entries_used_while_scan_suspended')
+        ctx.evaluated(('definitions-in-force', rno, ctx.shard), True)
+        if got != members or got_attrs != attrs:
+            ctx.violate('definitions-in-force/%s/%s' % ('sequence-members' if got != members else 'element-attributes', how),
+                        'with the scan %s at the definition message (round %d), sequence %06d expands to %r (defined: %r), element %06d has %r (defined: %r)'
+                        % (how, rno, sq, got, members, e1, got_attrs, attrs), spec)
+            return
+        if how == 'suspended':
+            try:
+                list(gen)
+            except Exception:
+                pass
 
 
 def replay(ctx, case):
